@@ -51,7 +51,7 @@ def check(chk: Check) -> None:
     R3 = chk.rule('C17.R3', 'cache absence and presence run the same parser code: one miss body, entered iff the cache '
                             'is None or lacks the key', floor=1)
     R4 = chk.rule('C17.R4', 'evaluation never writes to a tree: no store, mutation or hand-over of a mutable tree part in '
-                            'any eval method or lambda closure', floor=13)
+                            'any eval method or lambda closure', floor=8)
     R5 = chk.rule('C17.R5', 'results never alias a mutable part of the tree: a field returned by eval is only ever '
                             'constructed from immutable scalars', floor=1)
     R6 = chk.rule('C17.R6', 'no tree mutation after the parser returned (parse-time appends happen in grammar actions only)',
